@@ -49,6 +49,8 @@ ASSUMPTIONS = [
     "the reference evaluator is not used on models with function overloads (probe: it resolves calls by (domain,name) "
     "only and silently runs the wrong body)",
     "inputs are fed positionally to the non-initializer graph inputs; names of inputs/outputs may change (report-only)",
+    "initializer-backed graph inputs are inputs too: up to 2 extra runs per model override them by name; such a run is "
+    "replayed on P(M) only if every overridden name is still an initializer-backed input with the same default there",
     "'for all inputs' is sampled by 3 input sets per model; +0.0 and -0.0 compare equal (IEEE), NaN equals NaN",
 ]
 
@@ -192,7 +194,14 @@ def _sig_io(proto):
             [(o.name, o.type.tensor_type.elem_type) for o in proto.graph.output])
 
 
-def evaluate(case: GE.Case, model: ir.Model, ctx=None, want: str | None = None):
+def overrides_allowed(specs) -> bool:
+    """RemoveInitializersFromInputsPass legitimately turns an optional input into a constant; what
+    later passes do with that constant (merge it, expose it again under the old name) is then
+    legitimate too, so a sequence containing it is judged on the default values only."""
+    return all(s[0] != "RemoveInitializersFromInputsPass" for s in specs)
+
+
+def evaluate(case: GE.Case, model: ir.Model, ctx=None, want: str | None = None, overrides: bool = True):
     """All refuting events of the transformed model, as a list of (clause, message).  ``want``
     restricts the work to one clause kind (used while shrinking)."""
     def count(key, n=1):
@@ -252,6 +261,29 @@ def evaluate(case: GE.Case, model: ir.Model, ctx=None, want: str | None = None):
                 equal.setdefault(e, set()).add(j)
             else:
                 differ.setdefault(e, {})[j] = d
+    # the same through the initializer-backed ("optional") graph inputs: an override set is replayed on
+    # P(M) only if every overridden name is still an optional input there with the same default;
+    # it is applied to M and P(M) identically or not at all
+    usable = [j for j, (_, m) in enumerate(case.override_sets)
+              if overrides and GE.override_applicable(case.proto, proto, m)]
+    count("override_sets_not_applicable", len(case.override_sets) - len(usable))
+    for e in GE.EVALUATORS:
+        idx = [j for j in case.ran_override(e) if j in usable]
+        if not idx:
+            continue
+        results = GE.RUNNERS[e](proto, [case.inputs[case.override_sets[j][0]] for j in idx],
+                                [case.override_sets[j][1] for j in idx])
+        for j, r in zip(idx, results):
+            if not r.ok:
+                count("evaluator_lost_override:" + e)
+                continue
+            count("compared_override:" + e)
+            d = GE.same_outputs(case.override_baseline[e][j].outputs, r.outputs)
+            key = 1000 + j  # override runs are numbered after the plain input sets
+            if d is None:
+                equal.setdefault(e, set()).add(key)
+            else:
+                differ.setdefault(e, {})[key] = d + f" [optional inputs {sorted(case.override_sets[j][1])} overridden]"
     if not differ and not equal:
         count("inconclusive_no_evaluator")
         if want is not None:
@@ -285,7 +317,8 @@ def _violates(case, source, specs, clause) -> str | None:
     model, applied, _, _ = apply_flat(case, source, specs)
     if model is None or len(applied) != len(specs):
         return None
-    for c, _ in evaluate(case, model, want="outputs-differ" if clause == "outputs-unknown" else clause):
+    for c, _ in evaluate(case, model, want="outputs-differ" if clause == "outputs-unknown" else clause,
+                         overrides=overrides_allowed(specs)):
         if _kind(c) == _kind(clause):
             return c
     return None
@@ -418,7 +451,7 @@ def run_sequence(ctx, case: GE.Case, rng: random.Random, number: int) -> None:
     if model is None or not flat:
         ctx.count("sequences_without_transformed_model")
         return
-    found = evaluate(case, model, ctx)
+    found = evaluate(case, model, ctx, overrides=overrides_allowed(flat))
     info = case.info
     nontrivial = any(flags) and (info["has_subgraph"] or info["has_function"] or info["has_planted_duplicate"])
     ctx.evaluation(key=stable_hash([info["planted"], flat, source]), nontrivial=nontrivial)
@@ -496,7 +529,7 @@ def replay(replay_data, ctx) -> None:
     if model is None or len(applied) != len(specs):
         ctx.note(f"replay: a pass of the witness sequence now raises: {error!r}")
         return
-    for clause, message in evaluate(case, model, want=replay_data["clause"]):
+    for clause, message in evaluate(case, model, want=replay_data["clause"], overrides=overrides_allowed(specs)):
         if clause == replay_data["clause"]:
             ctx.violation(replay_data["signature"], message + f"\n sequence {[label(s) for s in specs]} on model seed "
                           f"{replay_data['seed']} size {replay_data['size']} features {replay_data['features']}", replay_data)
